@@ -70,36 +70,34 @@ instance (s : State) (op : Op) : Decidable (Good s op) := by
 theorem inv_empty : Inv {} := by
   refine ⟨?_, ?_, ?_, ?_, ?_, ?_, ?_, ?_, ?_⟩ <;> simp [keysNodup]
 
-theorem core_congr {a b : Resp} (h : a = b) : a.core = b.core := by rw [h]
-
-/-- one request: answers agree (up to the ETag `head_object` never returns), the abstraction commutes, the invariant holds -/
+/-- one request: answers agree, the abstraction commutes, the invariant holds -/
 theorem step_refines (H : Hashes) (dl : Nat) {s : State} (hi : Inv s) {op : Op} (hg : Good s op) :
-    (step H dl s op).2.core = (StoreSpec.step H (abs s) op).2.core ∧
+    (step H dl s op).2 = (StoreSpec.step H (abs s) op).2 ∧
     abs (step H dl s op).1 = (StoreSpec.step H (abs s) op).1 ∧ Inv (step H dl s op).1 := by
   cases op with
-  | createBucket b => have := createBucket_refines H dl hi hg; exact ⟨core_congr this.1, this.2⟩
-  | deleteBucket b => have := deleteBucket_refines H dl hi hg; exact ⟨core_congr this.1, this.2⟩
-  | headBucket b => have := headBucket_refines H dl hi hg; exact ⟨core_congr this.1, this.2⟩
-  | getBucketLocation b => have := getBucketLocation_refines H dl hi hg; exact ⟨core_congr this.1, this.2⟩
-  | listBuckets => have := listBuckets_refines H dl hi; exact ⟨core_congr this.1, this.2⟩
+  | createBucket b => exact createBucket_refines H dl hi hg
+  | deleteBucket b => exact deleteBucket_refines H dl hi hg
+  | headBucket b => exact headBucket_refines H dl hi hg
+  | getBucketLocation b => exact getBucketLocation_refines H dl hi hg
+  | listBuckets => exact listBuckets_refines H dl hi
   | putObject b k c md cks clen =>
-    have := put_refines H dl hi (c := c) (md := md) (cks := cks) (clen := clen) hg; exact ⟨core_congr this.1, this.2⟩
-  | getObject b k r => have := get_refines H dl hi (range := r) hg; exact ⟨core_congr this.1, this.2⟩
+    exact put_refines H dl hi (c := c) (md := md) (cks := cks) (clen := clen) hg
+  | getObject b k r => exact get_refines H dl hi (range := r) hg
   | headObject b k => exact head_refines H dl hi hg
-  | deleteObject b k => have := delete_refines H dl hi hg; exact ⟨core_congr this.1, this.2⟩
-  | deleteObjects b ks => have := deleteObjects_refines H dl hi hg; exact ⟨core_congr this.1, this.2⟩
-  | copyObject sb sk db dk => have := copy_refines H dl hi hg; exact ⟨core_congr this.1, this.2⟩
-  | listObjectsV2 b p d a m => have := listV2_refines H dl hi (after := a) hg; exact ⟨core_congr this.1, this.2⟩
-  | listObjects b p d a m => have := listV1_refines H dl hi (marker := a) hg; exact ⟨core_congr this.1, this.2⟩
+  | deleteObject b k => exact delete_refines H dl hi hg
+  | deleteObjects b ks => exact deleteObjects_refines H dl hi hg
+  | copyObject sb sk db dk => exact copy_refines H dl hi hg
+  | listObjectsV2 b p d a m => exact listV2_refines H dl hi (after := a) hg
+  | listObjects b p d a m => exact listV1_refines H dl hi (marker := a) hg
   | createMultipartUpload w b k md =>
-    have := createUpload_refines H dl hi (who := w) (md := md) hg; exact ⟨core_congr this.1, this.2⟩
+    exact createUpload_refines H dl hi (who := w) (md := md) hg
   | uploadPart w b k u n c =>
-    have := uploadPart_refines H dl hi (who := w) (c := c) hg; exact ⟨core_congr this.1, this.2⟩
+    exact uploadPart_refines H dl hi (who := w) (c := c) hg
   | uploadPartCopy w b k u n sb sk r =>
-    have := uploadPartCopy_refines H dl hi (who := w) hg; exact ⟨core_congr this.1, this.2⟩
-  | listParts w b k u => have := listParts_refines H dl hi (who := w) hg; exact ⟨core_congr this.1, this.2⟩
-  | completeMultipartUpload w b k u parts => have := complete_refines H dl hi hg; exact ⟨core_congr this.1, this.2⟩
-  | abortMultipartUpload w b k u => have := abort_refines H dl hi (who := w) hg; exact ⟨core_congr this.1, this.2⟩
+    exact uploadPartCopy_refines H dl hi (who := w) hg
+  | listParts w b k u => exact listParts_refines H dl hi (who := w) hg
+  | completeMultipartUpload w b k u parts => exact complete_refines H dl hi hg
+  | abortMultipartUpload w b k u => exact abort_refines H dl hi (who := w) hg
 
 /-- every request of the history meets `Good` in the state the backend is in when it arrives -/
 def GoodRun (H : Hashes) (dl : Nat) : State → List Op → Prop
@@ -113,7 +111,7 @@ instance (H : Hashes) (dl : Nat) : ∀ (s : State) (ops : List Op), Decidable (G
     by unfold GoodRun; infer_instance
 
 theorem history_refines (H : Hashes) (dl : Nat) : ∀ (ops : List Op) (s : State), Inv s → GoodRun H dl s ops →
-    (run H dl s ops).2.map Resp.core = (StoreSpec.run H (abs s) ops).2.map Resp.core ∧
+    (run H dl s ops).2 = (StoreSpec.run H (abs s) ops).2 ∧
     abs (run H dl s ops).1 = (StoreSpec.run H (abs s) ops).1 ∧ Inv (run H dl s ops).1 := by
   intro ops
   induction ops with
